@@ -349,6 +349,8 @@ SRCTIE = {
     "Grenad.SrcTie.MergeWrite": ("SrcMerger,SrcMergerIter,SrcWriter,SrcMergeWrite", ["Entry", "Entry.cmp", "MergerIter", "MergerIter.next", "Merger", "Merger.into_stream_merger_iter", "Merger.write_into_stream_writer", "DEFAULT_INDEX_KEY_INTERVAL", "BlockWriterBuilder", "BlockWriterBuilder.new",
                                                  "BlockWriterBuilder.index_key_interval", "BlockWriterBuilder.build", "BlockWriter.builder",
                                                  "BlockWriter.last_key", "Writer", "WriterBuilder.build", "Writer.insert", "Writer.into_inner"]),
+    "Grenad.SrcTie.ReaderAccessors": ("SrcReaderCursor2", ["Reader", "Reader.len", "Reader.is_empty", "Reader.file_version", "Reader.compression_type",
+                                                      "Reader.index_block_offset", "Reader.index_levels"]),
     "Grenad.SrcTie.Compression": ("SrcCompression", ["CompressionType", "compress", "decompress"]),
     "Grenad.SrcTie.MergerIter": ("SrcMerger,SrcMergerIter", ["Entry", "Entry.cmp", "MergerIter", "MergerIter.next", "Merger", "Merger.into_stream_merger_iter"]),
     "Grenad.SrcTie.MergerIterNext": ("SrcMerger,SrcMergerIter", ["Entry", "Entry.cmp", "MergerIter", "MergerIter.next", "Merger", "Merger.into_stream_merger_iter"]),
@@ -361,7 +363,7 @@ SRCTIE = {
 for _p, _mods in {"C14": ["Varint", "Block", "C14Src"], "C13": ["Meta", "C13Src"], "C10": ["Meta", "C10Src"],
                   "C09": ["Meta", "BlockWriter", "Varint", "C13Src", "CountWrite", "WriterBlock", "WriterInsert", "WriterFinish", "WriterRun", "Compression"], "C04": ["IterRange", "IterNext", "C04C05Src", "IterNew"],
                   "C05": ["IterPrefix", "C05Src", "IterNext", "C04C05Src", "IterNew"], "C18": ["BlockWriter", "C18Src", "WriterBlock", "WriterInsert", "WriterRun"], "C15": ["BlockWriter", "WriterBuilder", "WriterCut", "WriterInsert", "WriterBuild"],
-                  "C01": ["BlockWriter", "Varint", "Meta", "Block", "BlockCursor", "TBlockSrc", "BuiltSrc", "NoPanic", "EndToEnd", "BlockLoad", "WriterBlock", "WriterLemmas", "WriterCut", "WriterInsert", "WriterFinish", "WriterRun", "WriterBounds", "WriterBuild", "Compression", "ReaderCursorTie", "ReaderCursorTieStep", "ReaderE2E", "ReaderE2EIdx", "ReaderE2EGen", "ReaderE2ESmoke", "ReaderTotalBase", "ReaderTotalIdx", "ReaderTotal", "ReaderTotalSmoke", "FullRoundTrip"],
+                  "C01": ["BlockWriter", "Varint", "Meta", "Block", "BlockCursor", "TBlockSrc", "BuiltSrc", "NoPanic", "EndToEnd", "BlockLoad", "WriterBlock", "WriterLemmas", "WriterCut", "WriterInsert", "WriterFinish", "WriterRun", "WriterBounds", "WriterBuild", "Compression", "ReaderCursorTie", "ReaderCursorTieStep", "ReaderE2E", "ReaderE2EIdx", "ReaderE2EGen", "ReaderE2ESmoke", "ReaderTotalBase", "ReaderTotalIdx", "ReaderTotal", "ReaderTotalSmoke", "FullRoundTrip", "ReaderAccessors"],
                   "C02": ["BlockCursor", "Smoke", "TBlockSrc", "NoPanic", "IndexCursorLoad", "IndexCursorIter", "IndexCursor", "ReaderCursorTie", "ReaderCursorTieStep", "ReaderE2E", "ReaderE2EIdx", "ReaderE2EGen", "ReaderTotal"],
                   "C03": ["IndexCursorLoad", "IndexCursorInit", "IndexCursorIter", "IndexCursorRec", "IndexCursor", "IndexCursorSmoke", "ReaderCursorTie", "ReaderCursorTieStep", "ReaderE2E", "ReaderE2EIdx", "ReaderE2EGen", "ReaderE2ESmoke", "ReaderTotalBase", "ReaderTotalIdx", "ReaderTotal", "ReaderTotalSmoke"],
                   "C16": ["IndexCursorLoad", "IndexCursorInit", "IndexCursorIter", "IndexCursorRec", "IndexCursor", "ReaderCursorTie", "ReaderCursorTieStep"], "C06": ["Merger", "MergerIter", "MergerIterNext", "MergerIterStep", "MergerIterRun", "MergerBuilder", "MergeWrite"], "C11": ["CountWrite"], "C08": ["Sorter", "SorterInsert", "SorterBuilder", "EntriesInsert"], "C07": ["Sorter", "SorterInsert", "EntriesInsert"], "C17": ["Sorter", "EntriesInsert"]}.items():
